@@ -11,7 +11,7 @@ import struct
 
 from vlib.common import NCPU, Run, Shard, describe_exc, rng, run_shards
 
-POLL = 0.1
+from vlib.libconst import poll
 
 
 def frame(src, dst, content):
@@ -136,6 +136,7 @@ def judge_queue(sh: Shard, rig, regime, e0, label, final=True):
 
     q = rig.protocol.queue
     vs = rig.w.loop.vsel
+    POLL = poll()
     late_max = REGIMES[regime][0]
     put, pops = {}, {}
     for ev in q.events[e0:]:
